@@ -1292,7 +1292,8 @@ func (s *c10seq1) randomOps1(rng *Rng, cfg c10cfg1) {
 func TestC10(t *testing.T) {
 	tr := OpenTrace(t, "c10.trace")
 	defer tr.Close(t)
-	rng := NewRng(seed())
+	// NewRng(k) is NewRng(1) advanced by k-1 draws: spread the seeds 2^40 draws apart so that runs do not overlap
+	rng := NewRng(seed()<<40 + 1)
 	f := c10newFix(t)
 	// ---- price functions (D8 witness is the first line)
 	c10pricePart(t, f, tr, rng)
